@@ -47,6 +47,31 @@ def rand_history(rng, mode, thorough):
     return h
 
 
+def rand_multi_history(rng, thorough):
+    """flows mode, an engine with several user flows that each hold a Retry processor behind a status filter: a wildcard flow and
+    exact-URL flows, so that one call is selected by one, two or three of them; processor keys equal or different; attempts equal
+    or different; sequences interleaved; every Retry processor is judged on its own (key "<flow>/<sequence>")."""
+    same_key = rng.random() < 0.6
+    same_att = rng.random() < 0.5
+    a0 = rng.choice([1, 2, 2, 3])
+    urls = [("f1", "api.test/*"), ("f2", "api.test/orders")] + ([("f3", rng.choice(["api.test/orders", "api.test/other"]))] if rng.random() < 0.4 else [])
+    flows = [{"name": n, "url": u, "key": "RetryProc" if same_key else "Retry_" + n, "A": a0 if same_att else rng.choice([1, 2, 3])}
+             for n, u in urls]
+    seqs = ["s%d" % i for i in range(1, rng.choice([1, 2, 3]) + 1)]
+    h = [{"ev": "reset", "mode": "flows", "A": 0, "cd": 0, "mult": 0, "ranges": [[500, 599]], "seqs": seqs, "flows": flows}]
+    path = {s: rng.choice(["orders", "orders", "other", "misc"]) for s in seqs}     # a call and its retries go to one URL
+    for _ in range(rng.randint(8, 24 if not thorough else 36)):
+        if rng.random() < 0.05:
+            h.append({"ev": "adv", "d": rng.choice([1, 31, 100])})
+            continue
+        s = rng.choice(seqs)
+        if rng.random() < 0.05:
+            path[s] = rng.choice(["orders", "other", "misc"])
+        st = rng.choice([500, 503, 599]) if rng.random() < 0.85 else rng.choice([200, 404, 499])
+        h.append({"ev": "resp", "s": s, "st": st, "new": rng.random() < 0.3, "u": path[s]})
+    return h
+
+
 def script_of(hist):
     return [{k: v for k, v in e.items() if k not in ("out", "ra", "refused")} for e in hist]
 
@@ -69,14 +94,19 @@ def nontrivial(h):
 def witness_of(rej):
     h, at = rej["hist"], rej["at"]
     r, e = h[0], h[at]
-    w = {"class": "answer-not-allowed-by-spec", "mode": r.get("mode"), "A": r.get("A"), "event": e, "invariant": rej.get("invariant")}
+    att = r.get("A")
+    if e.get("s") in r.get("seqs", []) and "atts" in r:
+        att = r["atts"][r["seqs"].index(e["s"])]
+    w = {"class": "answer-not-allowed-by-spec", "mode": r.get("mode"), "A": att, "event": e, "invariant": rej.get("invariant")}
+    if r.get("flows"):
+        w["flows"] = r["flows"]
     if e.get("ev") == "resp":
         cond = in_cond(r["ranges"], e["st"])
         if e.get("out") == "retry" and not cond:
             w["class"] = "retry-outside-conditions"
         elif e.get("out") == "retry":
             w["class"] = "retry-beyond-budget"
-            w["nonpositive_attempts"] = r["A"] <= 0
+            w["nonpositive_attempts"] = att <= 0
         elif cond and e.get("out") in ("noop", "failed"):
             w["class"] = "no-retry-although-budget-left"
         prior = [x for x in h[1:at] if x.get("ev") == "resp" and x.get("s") == e.get("s")]
@@ -107,7 +137,7 @@ def execute(ctx, binary, scripts, tag):
     return [read_ndjson(os.path.join(d, "trace-%03d.ndjson" % i)) for i in range(len(scripts))]
 
 
-def judge(ctx, binary, traces, tag, seen):
+def judge(ctx, binary, traces, tag, seen, scripts):
     """TLC validates the recordings against RetryP (verdict) and RetryI (model conformance)."""
     def one(it):
         i, ev = it
@@ -117,7 +147,7 @@ def judge(ctx, binary, traces, tag, seen):
         return validate_history_trace(ctx, SPEC, "RetryITrace", ev, tag="%si%d" % (tag, i), max_rounds=3)
     res = parallel(one, list(enumerate(traces)), n=6)
     res_i = parallel(one_i, list(enumerate(traces)), n=6)
-    for (acc, rejected, _), (acc_i, rej_i, _), ev in zip(res, res_i, traces):
+    for ti, ((acc, rejected, _), (acc_i, rej_i, _), ev) in enumerate(zip(res, res_i, traces)):
         _, hs = split_histories(ev)
         ctx.cov["traces_validated_against_impl"] += acc
         for h in hs:
@@ -132,19 +162,18 @@ def judge(ctx, binary, traces, tag, seen):
             ctx.notes.append("MODEL-DRIFT (%s): RetryI does not predict %s" % (tag, json.dumps(rej_i[0]["hist"][rej_i[0]["at"]])))
         for rej in rejected:
             w = witness_of(rej)
-            script = [{"histories": [script_of(rej["hist"])]}]
+            j = next(i for i, h in enumerate(hs) if h == rej["hist"])
+            script = [{"histories": [scripts[ti]["histories"][j]]}]
             t2 = execute(ctx, binary, script, "%s-repro" % tag)[0]
             _, r2, _ = validate_history_trace(ctx, SPEC, "RetryTrace", t2, tag="%s-repro" % tag)
             if not r2:
                 # the history alone is accepted: the answer depended on what the same process did before (engines are shared
-                # by the histories of a run) - reproduce with the whole script of that run
-                _, hs_all = split_histories(ev)
-                j = next(i for i, h in enumerate(hs_all) if h == rej["hist"])
-                script = [{"histories": [script_of(h) for h in hs_all]}]
+                # by the histories of a script) - reproduce with the whole script
+                script = [scripts[ti]]
                 t2 = execute(ctx, binary, script, "%s-repro-all" % tag)[0]
                 _, hs2 = split_histories(t2)
                 # the same recording again = the same verdict of the specification on it
-                if len(hs2) != len(hs_all) or hs2[j] != hs_all[j]:
+                if len(hs2) <= j or hs2[j] != rej["hist"]:
                     raise Broken("rejection not reproduced (%s): %s" % (tag, json.dumps(w)))
                 w["needs_preceding_histories"] = True
             ctx.violation(w, {"script": script, "trace": [rej["config"]] + rej["hist"], "rejected_at": rej["at"]})
@@ -167,7 +196,8 @@ def run(ctx):
                                "proc.exec hook output failed=failed, Retry not executed=none)"]
     ctx.assumptions += ["responses of one sequence are handled one after the other (the plugin's documented assumption); sequences interleave",
                         "the statement is silent about time: P lets any passage of time forget a sequence, never more",
-                        "flows mode: one Retry processor behind one Filter(status_code_range)"]
+                        "flows mode: Retry processors behind a Filter(status_code_range) each; with several flows selected for one call "
+                        "every Retry processor bounds its own retries (the statement's configured number is the processor's)"]
 
     # (1) exhaustive: I => P on the bounded instance; action properties on a smaller bound; every broken variant must be refuted
     ctx.tlc_exhaustive(sd, "MC_C17", "MC_small.cfg" if not T else "MC_large.cfg", timeout=1500, label="I=>P (Accepted, Bounded)",
@@ -209,7 +239,8 @@ def run(ctx):
         if r["mode"] == "flows":
             r["ranges"] = [[500, 599]]
         hists.append([r] + [{k: v for k, v in e.items() if k != "out"} for e in w[1:]])
-    traces = execute(ctx, binary, [{"histories": hists}], "gen")
+    gscripts = [{"histories": hists}]
+    traces = execute(ctx, binary, gscripts, "gen")
     _, real = split_histories(traces[0])
     mism = 0
     for w, h in zip(walks, real):
@@ -222,7 +253,7 @@ def run(ctx):
         ctx.cov["model_drift"] = True
         ctx.notes.append("MODEL-DRIFT: %d generated policy walks answered differently from RetryI" % mism)
     ctx.sample({"kind": "tlc-walk-replayed", "events": real[0][:10]})
-    judge(ctx, binary, traces, "gen", seen)
+    judge(ctx, binary, traces, "gen", seen, gscripts)
 
     # (2b) spec -> code, exhaustively: every behaviour of RetryI with 3 (thorough: 5) events of one sequence, both modes,
     #      attempts 1 and 2, statuses inside/outside the conditions, new/continued, clock steps 30 / 31 s around the state TTL
@@ -237,20 +268,24 @@ def run(ctx):
         hx.append([r] + [{k: v for k, v in e.items() if k != "out"} for e in w[1:]])
     nchunk = 2 if not T else 12
     k = (len(hx) + nchunk - 1) // nchunk
-    traces = execute(ctx, binary, [{"histories": hx[i:i + k]} for i in range(0, len(hx), k)], "enum")
-    judge(ctx, binary, traces, "enum", seen)
+    xscripts = [{"histories": hx[i:i + k]} for i in range(0, len(hx), k)]
+    traces = execute(ctx, binary, xscripts, "enum")
+    judge(ctx, binary, traces, "enum", seen, xscripts)
     ctx.cov["exhaustive"] = True
     ctx.log("replayed all %d behaviours of the enumeration" % len(allb))
 
     # (3) code -> spec: random scripts, both modes
     nscripts, nh = (6, 40) if not T else (16, 150)
-    scripts = [{"histories": [rand_history(ctx.rng, "policy" if (i + j) % 2 == 0 else "flows", T) for j in range(nh)]}
-               for i in range(nscripts)]
+    def pick(i, j):
+        if j % 4 == 3:
+            return rand_multi_history(ctx.rng, T)
+        return rand_history(ctx.rng, "policy" if (i + j) % 2 == 0 else "flows", T)
+    scripts = [{"histories": [pick(i, j) for j in range(nh)]} for i in range(nscripts)]
     traces = execute(ctx, binary, scripts, "rand")
     refused = sum(1 for t in traces for e in t if e.get("refused"))
     ctx.sample({"kind": "recorded-trace", "events": traces[0][:12]})
     ctx.sample({"kind": "recorded-trace", "events": traces[1][:12]})
-    judge(ctx, binary, traces, "rand", seen)
+    judge(ctx, binary, traces, "rand", seen, scripts)
     if refused:
         ctx.notes.append("%d configurations refused by the loader" % refused)
 
